@@ -52,8 +52,9 @@ static void KSI_AsyncHandle_cleanup(KSI_AsyncHandle *o) {
 		KSI_free(o->raw);
 		KSI_Utf8String_free(o->errMsg);
 
-		KSI_nofree(o->signature);
-		KSI_nofree(o->pubRec);
+		/* The handle holds its own references (see KSI_AsyncExtendingHandle_new). */
+		KSI_Signature_free((KSI_Signature *)o->signature);
+		KSI_PublicationRecord_free((KSI_PublicationRecord *)o->pubRec);
 	}
 }
 
@@ -304,8 +305,9 @@ int KSI_AsyncExtendingHandle_new(KSI_CTX *ctx, const KSI_Signature *sig, const K
 	}
 	req = NULL;
 
-	tmp->signature = sig;
-	tmp->pubRec = pubRec;
+	/* As documented, the caller may release its signature and publication record right after this call. */
+	tmp->signature = KSI_Signature_ref((KSI_Signature *)sig);
+	tmp->pubRec = KSI_PublicationRecord_ref((KSI_PublicationRecord *)pubRec);
 
 	*o = tmp;
 	tmp = NULL;
